@@ -73,7 +73,10 @@ func (r *responseStorer) StoreResponse(
 		ReceivedAt:  respTime,
 		ID:          responseID,
 	}
-	_ = r.cache.Set(responseID, respEntry)
+	if err := r.cache.Set(responseID, respEntry); err != nil {
+		// Do not reference an entry that could not be written (e.g. the body could not be read completely).
+		return err
+	}
 
 	switch {
 	case refs == nil:
